@@ -303,7 +303,12 @@ func genStartupKV(r *Rand, user, db string) [][2]string {
 		case 3:
 			kv = append(kv, [2]string{r.Ident(3), r.Str(r.Range(1, 40))})
 		case 4:
-			kv = append(kv, [2]string{"client_encoding", "UTF8"})
+			// (whatever the client asks for, the server announces UTF8; other
+			// keys that are also server parameters are the client's own business)
+			kv = append(kv, [2]string{"client_encoding", r.Pick("UTF8", "LATIN1", "SQL_ASCII", "utf8", "")})
+			if r.Chance(1, 3) {
+				kv = append(kv, [2]string{r.Pick("server_encoding", "server_version", "session_authorization", "is_superuser"), r.Pick("LATIN1", "1.0", "postgres", "on")})
+			}
 		}
 		if r.Chance(1, 6) {
 			// names are case-sensitive strings: they must come back exactly as sent
